@@ -1376,6 +1376,7 @@ type c09Influence struct {
 	skip   map[*ssa.BasicBlock]bool // blocks whose instructions were judged otherwise (the key's own case)
 	seen   map[ssa.Value]bool
 	fields map[string]bool // fieldInfo fields the followed values are stored into
+	ctl    map[string]bool // … those only stored into under a followed test (reported after the others)
 	whys   []string
 	where  string
 }
@@ -1449,6 +1450,7 @@ func (f *c09Influence) follow(v ssa.Value) {
 			}
 			st := fa.X.Type().Underlying().(*types.Pointer).Elem().Underlying().(*types.Struct)
 			f.fields[st.Field(fa.Field).Name()] = true
+			delete(f.ctl, st.Field(fa.Field).Name())
 		case *ssa.MakeSlice:
 			if x.Len == v {
 				f.bad(x, "it decides the LENGTH of the slice made at "+r.Where(x))
@@ -1548,7 +1550,12 @@ func (f *c09Influence) branch(ifi *ssa.If) {
 				// decision from here on — every read of it is followed (a hint field)
 				if fa, isF := st.Addr.(*ssa.FieldAddr); isF && isFieldInfoPtr(fa.X.Type()) {
 					stt := fa.X.Type().Underlying().(*types.Pointer).Elem().Underlying().(*types.Struct)
-					f.fields[stt.Field(fa.Field).Name()] = true
+					if n := stt.Field(fa.Field).Name(); !f.fields[n] {
+						f.fields[n] = true
+						if f.ctl != nil {
+							f.ctl[n] = true
+						}
+					}
 					continue
 				}
 			}
@@ -1665,7 +1672,7 @@ func c09KeyVerdicts(r *Run) map[string]*c09KeyVerdict {
 				region[b] = true
 			}
 		}
-		inf := &c09Influence{r: r, fn: fn, skip: region, seen: map[ssa.Value]bool{}, fields: map[string]bool{}}
+		inf := &c09Influence{r: r, fn: fn, skip: region, seen: map[ssa.Value]bool{}, fields: map[string]bool{}, ctl: map[string]bool{}}
 		// (1) the key's own case
 		for _, b := range fn.Blocks {
 			if !region[b] {
@@ -1764,58 +1771,64 @@ func c09KeyVerdicts(r *Run) map[string]*c09KeyVerdict {
 			for _, g := range r.P.ModFuncs {
 				add(g)
 			}
-			for _, g := range all {
-				gi := &c09Influence{r: r, fn: g, skip: map[*ssa.BasicBlock]bool{}, seen: map[ssa.Value]bool{}, fields: map[string]bool{}}
-				if g == fn {
-					gi.skip = region
-				}
-				eachInstr(g, func(in ssa.Instruction) {
-					switch x := in.(type) {
-					case *ssa.FieldAddr:
-						if !isFieldInfoPtr(x.X.Type()) {
-							return
-						}
-						st := x.X.Type().Underlying().(*types.Pointer).Elem().Underlying().(*types.Struct)
-						if !inf.fields[st.Field(x.Field).Name()] || x.Referrers() == nil {
-							return
-						}
-						for _, ref := range *x.Referrers() {
-							switch y := ref.(type) {
-							case *ssa.DebugRef:
-							case *ssa.Store:
-								if y.Addr != ssa.Value(x) {
-									gi.bad(y, "the address of field "+st.Field(x.Field).Name()+" is stored away at "+r.Where(y))
+			for pass := 0; pass < 2; pass++ {
+				for _, g := range all {
+					want := func(name string) bool { return inf.fields[name] && inf.ctl[name] == (pass == 1) }
+					gi := &c09Influence{r: r, fn: g, skip: map[*ssa.BasicBlock]bool{}, seen: map[ssa.Value]bool{}, fields: map[string]bool{}}
+					if g == fn {
+						gi.skip = region
+					}
+					eachInstr(g, func(in ssa.Instruction) {
+						switch x := in.(type) {
+						case *ssa.FieldAddr:
+							if !isFieldInfoPtr(x.X.Type()) {
+								return
+							}
+							st := x.X.Type().Underlying().(*types.Pointer).Elem().Underlying().(*types.Struct)
+							if !want(st.Field(x.Field).Name()) || x.Referrers() == nil {
+								return
+							}
+							for _, ref := range *x.Referrers() {
+								switch y := ref.(type) {
+								case *ssa.DebugRef:
+								case *ssa.Store:
+									if y.Addr != ssa.Value(x) {
+										gi.bad(y, "the address of field "+st.Field(x.Field).Name()+" is stored away at "+r.Where(y))
+									}
+								case *ssa.UnOp:
+									if y.Op == token.MUL {
+										gi.follow(y)
+									} else {
+										gi.bad(y, "the address of field "+st.Field(x.Field).Name()+" is used at "+r.Where(y))
+									}
+								default:
+									gi.bad(ref, fmt.Sprintf("the address of field %s is used by a %T at %s", st.Field(x.Field).Name(), ref, r.Where(ref)))
 								}
-							case *ssa.UnOp:
-								if y.Op == token.MUL {
-									gi.follow(y)
-								} else {
-									gi.bad(y, "the address of field "+st.Field(x.Field).Name()+" is used at "+r.Where(y))
+							}
+						case *ssa.Field:
+							if isFieldInfo(x.X.Type()) {
+								st := x.X.Type().Underlying().(*types.Struct)
+								if want(st.Field(x.Field).Name()) {
+									gi.follow(x)
 								}
-							default:
-								gi.bad(ref, fmt.Sprintf("the address of field %s is used by a %T at %s", st.Field(x.Field).Name(), ref, r.Where(ref)))
 							}
 						}
-					case *ssa.Field:
-						if isFieldInfo(x.X.Type()) {
-							st := x.X.Type().Underlying().(*types.Struct)
-							if inf.fields[st.Field(x.Field).Name()] {
-								gi.follow(x)
-							}
+					})
+					for f2 := range gi.fields {
+						if !inf.fields[f2] {
+							gi.bad(g.Blocks[0].Instrs[0], "it is copied into field "+f2+" of a field info in "+FuncName(g))
 						}
 					}
-				})
-				for f2 := range gi.fields {
-					if !inf.fields[f2] {
-						gi.bad(g.Blocks[0].Instrs[0], "it is copied into field "+f2+" of a field info in "+FuncName(g))
-					}
-				}
-				for _, w := range gi.whys {
-					if len(far) < 6 {
-						far = append(far, "read back from the field info in "+FuncName(g)+", "+w)
-					}
-					if farWhere == "" {
-						farWhere = gi.where
+					sort.SliceStable(gi.whys, func(i, j int) bool {
+						return strings.Contains(gi.whys[i], "decides whether") && !strings.Contains(gi.whys[j], "decides whether")
+					})
+					for _, w := range gi.whys {
+						if len(far) < 12 {
+							far = append(far, "read back from the field info in "+FuncName(g)+", "+w)
+						}
+						if farWhere == "" {
+							farWhere = gi.where
+						}
 					}
 				}
 			}
